@@ -359,3 +359,304 @@ Proof.
                                else match nn_znth (st_path Z s) (Z.of_nat (S (length fs'))) with Some x => x | None => 0 end));
     [destruct a|]; reflexivity.
 Qed.
+
+Lemma upd_nth_zpath : forall fs (x : Z) rest f,
+  nn_upd_nth (zpath fs ++ x :: rest) (length fs) f = zpath fs ++ f x :: rest.
+Proof. intros. rewrite <- (zpath_length fs). apply c18_upd_nth_mid. Qed.
+Lemma upd_nth_zpath_S : forall fs (x y : Z) rest f,
+  nn_upd_nth (zpath fs ++ x :: y :: rest) (S (length fs)) f = zpath fs ++ x :: f y :: rest.
+Proof.
+  intros. replace (zpath fs ++ x :: y :: rest) with ((zpath fs ++ [x]) ++ y :: rest) by (rewrite <- app_assoc; reflexivity).
+  replace (S (length fs)) with (length (zpath fs ++ [x])) by (rewrite app_length, zpath_length; simpl; lia).
+  rewrite c18_upd_nth_mid. rewrite <- app_assoc. reflexivity.
+Qed.
+
+(* the iterator stands on the same entry after split_body re-pointed it *)
+Lemma split_iter_pos : forall (a : node) pl L R fs' q item A e B l1 l2 pl4,
+  at_pos a q item A e B -> (split_pt a <= Z.to_nat (arity a))%nat ->
+  (is_leaf a = true -> split_start a = 2 * Z.of_nat (split_pt a)) ->
+  (is_leaf a = false -> split_start a = Z.of_nat (split_pt a)) ->
+  exists q4,
+    fst (split_iter a (length fs') (zpath (Fr pl L R :: fs') ++ q) item) = zpath fs' ++ q4 /\
+    at_pos (fill (Fr pl4 L (nn_set_lim Z l2 (half2 a) :: R)) (nn_set_lim Z l1 (half1 a))) q4
+           (snd (split_iter a (length fs') (zpath (Fr pl L R :: fs') ++ q) item))
+           (flat_map zabs L ++ A) e (B ++ flat_map zabs R).
+Proof.
+  intros a pl L R fs' q item A e B l1 l2 pl4 Hpos Hsp Hst1 Hst2.
+  unfold split_iter. rewrite zpath_cons, <- app_assoc. cbn [app]. unfold fidx. cbn [fr_L].
+  destruct a as [l items|l kids].
+  - destruct (at_pos_leaf_inv _ _ _ _ _ _ _ Hpos) as (-> & Hitems & ->).
+    cbn [is_leaf half1 half2 nn_set_lim]. specialize (Hst1 eq_refl). rewrite Hst1.
+    set (sp := split_pt (NLeaf l items)) in *. cbn [arity] in Hsp. rewrite c18_to_nat_zlen in Hsp.
+    assert (Hlen1 : length (firstn sp items) = sp) by (rewrite firstn_length; lia).
+    pose proof (firstn_skipn sp items) as Hfs. rewrite Hitems in Hfs at 3.
+    destruct (c18_app_split _ _ _ _ _ Hfs) as [(Q' & H1 & H2)|(P' & H1 & H2)].
+    + assert (Hlt : nn_zlen A < Z.of_nat sp).
+      { rewrite <- Hlen1, H1. rewrite app_length. unfold nn_zlen. simpl. lia. }
+      replace (2 * Z.of_nat sp <=? 2 * nn_zlen A) with false by (symmetry; apply Z.leb_gt; lia).
+      cbn [fst snd]. exists [nn_zlen L]. split; [reflexivity|].
+      unfold fill. cbn [fr_lim fr_L fr_R]. rewrite H1.
+      pose proof (at_pos_inner_intro pl4 L (NLeaf l1 (A ++ e :: Q')) (NLeaf l2 (skipn sp items) :: R) [] (nn_zlen A) A e Q'
+                    (at_pos_leaf_intro l1 A e Q')) as X.
+      eapply at_pos_eq; [exact X|reflexivity|]. cbn [flat_map nn_abs]. rewrite H2, <- !app_assoc. reflexivity.
+    + assert (Hge : nn_zlen A = Z.of_nat sp + nn_zlen P').
+      { rewrite H1. rewrite c18_zlen_app. unfold nn_zlen at 1. rewrite Hlen1. reflexivity. }
+      pose proof (c18_zlen_nonneg P') as HP'.
+      replace (2 * Z.of_nat sp <=? 2 * nn_zlen A) with true by (symmetry; apply Z.leb_le; lia).
+      cbn [fst snd]. rewrite upd_nth_zpath. exists [nn_zlen L + 1]. split; [reflexivity|].
+      replace (nn_zlen A - 2 * Z.of_nat sp / 2) with (nn_zlen P').
+      2:{ rewrite (Z.mul_comm 2), Z.div_mul by lia. lia. }
+      unfold fill. cbn [fr_lim fr_L fr_R]. rewrite H2.
+      pose proof (at_pos_inner_intro pl4 (L ++ [NLeaf l1 (firstn sp items)]) (NLeaf l2 (P' ++ e :: B)) R [] (nn_zlen P') P' e B
+                    (at_pos_leaf_intro l2 P' e B)) as X.
+      rewrite <- app_assoc in X. cbn [app] in X.
+      rewrite c18_zlen_app, c18_zlen_cons, c18_zlen_nil in X. replace (nn_zlen L + (1 + 0)) with (nn_zlen L + 1) in X by lia.
+      eapply at_pos_eq; [exact X| |reflexivity].
+      rewrite flat_map_app. cbn [flat_map nn_abs]. rewrite H1, app_nil_r, <- !app_assoc. reflexivity.
+  - destruct (at_pos_inner_inv _ _ _ _ _ _ _ Hpos) as (KL & c & KR & q' & A' & B' & Hkids & -> & Hc & -> & ->).
+    cbn [is_leaf half1 half2 nn_set_lim]. specialize (Hst2 eq_refl). rewrite Hst2.
+    set (sp := split_pt (NInner l kids)) in *. cbn [arity] in Hsp. rewrite c18_to_nat_zlen in Hsp.
+    assert (Hlen1 : length (firstn sp kids) = sp) by (rewrite firstn_length; lia).
+    assert (Hold : nn_znth (zpath fs' ++ nn_zlen L :: nn_zlen KL :: q') (Z.of_nat (S (length fs'))) = Some (nn_zlen KL)).
+    { replace (zpath fs' ++ nn_zlen L :: nn_zlen KL :: q') with (zpath (Fr pl L R :: fs') ++ nn_zlen KL :: q')
+        by (rewrite zpath_cons, <- app_assoc; reflexivity).
+      change (S (length fs')) with (length (Fr pl L R :: fs')). rewrite znth_zpath. reflexivity. }
+    rewrite Hold.
+    pose proof (firstn_skipn sp kids) as Hfs. rewrite Hkids in Hfs at 3.
+    destruct (c18_app_split _ _ _ _ _ Hfs) as [(Q' & H1 & H2)|(P' & H1 & H2)].
+    + assert (Hlt : nn_zlen KL < Z.of_nat sp).
+      { rewrite <- Hlen1, H1. rewrite app_length. unfold nn_zlen. simpl. lia. }
+      replace (Z.of_nat sp <=? nn_zlen KL) with false by (symmetry; apply Z.leb_gt; lia).
+      cbn [fst snd]. exists (nn_zlen L :: nn_zlen KL :: q'). split; [reflexivity|].
+      unfold fill. cbn [fr_lim fr_L fr_R]. rewrite H1.
+      pose proof (at_pos_inner_intro pl4 L (NInner l1 (KL ++ c :: Q')) (NInner l2 (skipn sp kids) :: R) _ item _ e _
+                    (at_pos_inner_intro l1 KL c Q' q' item A' e B' Hc)) as X.
+      eapply at_pos_eq; [exact X|reflexivity|]. cbn [flat_map nn_abs]. rewrite H2, flat_map_app, <- !app_assoc. reflexivity.
+    + assert (Hge : nn_zlen KL = Z.of_nat sp + nn_zlen P').
+      { rewrite H1. rewrite c18_zlen_app. unfold nn_zlen at 1. rewrite Hlen1. reflexivity. }
+      pose proof (c18_zlen_nonneg P') as HP'.
+      replace (Z.of_nat sp <=? nn_zlen KL) with true by (symmetry; apply Z.leb_le; lia).
+      cbn [fst snd]. rewrite upd_nth_zpath, upd_nth_zpath_S.
+      exists (nn_zlen L + 1 :: nn_zlen KL - Z.of_nat sp :: q'). split; [reflexivity|].
+      replace (nn_zlen KL - Z.of_nat sp) with (nn_zlen P') by lia.
+      unfold fill. cbn [fr_lim fr_L fr_R]. rewrite H2.
+      pose proof (at_pos_inner_intro pl4 (L ++ [NInner l1 (firstn sp kids)]) (NInner l2 (P' ++ c :: KR)) R _ item _ e _
+                    (at_pos_inner_intro l2 P' c KR q' item A' e B' Hc)) as X.
+      rewrite <- app_assoc in X. cbn [app] in X.
+      rewrite c18_zlen_app, c18_zlen_cons, c18_zlen_nil in X. replace (nn_zlen L + (1 + 0)) with (nn_zlen L + 1) in X by lia.
+      eapply at_pos_eq; [exact X| |rewrite <- app_assoc; reflexivity].
+      rewrite flat_map_app. cbn [flat_map nn_abs]. rewrite H1, flat_map_app, app_nil_r, <- !app_assoc. reflexivity.
+Qed.
+
+(* ------------------------------------------------------------------ split *)
+Lemma nn_split_eq : forall t d (s : zst), nn_split Z nn_zcmp t d s =
+  if st_item Z s <? 0 then None else
+  match zget (st_root Z s) (firstn d (st_path Z s)) with
+  | None => None
+  | Some nd =>
+      match nn_split_needed Z t nd with
+      | None => None
+      | Some false => Some s
+      | Some true =>
+          match d with
+          | O => nn_split_body Z nn_zcmp t 1
+                   (NNSt Z (NInner None [nn_set_lim Z None nd]) (0 :: st_path Z s) (st_item Z s) (st_warn Z s))
+          | S dp =>
+              match nn_split_body Z nn_zcmp t d s with
+              | None => None
+              | Some s2 =>
+                  let '(r, w) := nn_reset_loop Z nn_zcmp d dp (st_path Z s2) (st_root Z s2) (st_warn Z s2) in
+                  nn_split Z nn_zcmp t dp (NNSt Z r (st_path Z s2) (st_item Z s2) w)
+              end
+          end
+      end
+  end.
+Proof. intros t [|dp] s; reflexivity. Qed.
+
+Lemma split_needed_eq : forall t (a : node), 1 <= arity a -> nn_split_needed Z t a = Some (t <? arity a).
+Proof.
+  intros t [l items|l kids] H; cbn [arity nn_split_needed] in *.
+  - destruct items as [|x items]; [rewrite c18_zlen_nil in H; lia|]. f_equal.
+    destruct (Z.ltb_spec (2 * t) (2 * nn_zlen (x :: items))); destruct (Z.ltb_spec t (nn_zlen (x :: items))); try reflexivity; lia.
+  - destruct kids as [|x kids]; [rewrite c18_zlen_nil in H; lia|]. reflexivity.
+Qed.
+
+Lemma half_set_lim : forall lim (a : node),
+  half1 (nn_set_lim Z lim a) = nn_set_lim Z lim (half1 a) /\ half2 (nn_set_lim Z lim a) = half2 a /\
+  split_pt (nn_set_lim Z lim a) = split_pt a /\ split_start (nn_set_lim Z lim a) = split_start a /\
+  is_leaf (nn_set_lim Z lim a) = is_leaf a /\ arity (nn_set_lim Z lim a) = arity a.
+Proof. intros lim [l items|l kids]; repeat split; reflexivity. Qed.
+
+Lemma c18_Forall_firstn {A} (P : A -> Prop) (n : nat) (l : list A) : Forall P l -> Forall P (firstn n l).
+Proof. intros H. rewrite <- (firstn_skipn n l) in H. apply Forall_app in H. tauto. Qed.
+Lemma c18_Forall_skipn {A} (P : A -> Prop) (n : nat) (l : list A) : Forall P l -> Forall P (skipn n l).
+Proof. intros H. rewrite <- (firstn_skipn n l) in H. apply Forall_app in H. tauto. Qed.
+Lemma c18_forallb_firstn {A} (p : A -> bool) (n : nat) (l : list A) : forallb p l = true -> forallb p (firstn n l) = true.
+Proof. intros H. rewrite <- (firstn_skipn n l), forallb_app in H. apply andb_true_iff in H. tauto. Qed.
+Lemma c18_forallb_skipn {A} (p : A -> bool) (n : nat) (l : list A) : forallb p l = true -> forallb p (skipn n l) = true.
+Proof. intros H. rewrite <- (firstn_skipn n l), forallb_app in H. apply andb_true_iff in H. tauto. Qed.
+Lemma c18_firstn_ne {A} (n : nat) (l : list A) : (1 <= n)%nat -> l <> [] -> firstn n l <> [].
+Proof. intros Hn Hl. destruct n; [lia|]. destruct l; [congruence|discriminate]. Qed.
+Lemma c18_skipn_ne {A} (n : nat) (l : list A) : (n < length l)%nat -> skipn n l <> [].
+Proof. intros Hn E. pose proof (skipn_length n l) as H. rewrite E in H. simpl in H. lia. Qed.
+
+(* the two halves of a node that is split are themselves well-formed *)
+Lemma halves_ok : forall t (a : node), kids_ok a -> kids_size_ok t a = true ->
+  (1 <= split_pt a)%nat -> Z.of_nat (split_pt a) < arity a ->
+  (nn_first_last Z (half1 a) <> None /\ kids_ok (half1 a) /\ kids_size_ok t (half1 a) = true /\
+   arity (half1 a) = Z.of_nat (split_pt a)) /\
+  (nn_first_last Z (half2 a) <> None /\ kids_ok (half2 a) /\ kids_size_ok t (half2 a) = true /\
+   arity (half2 a) = arity a - Z.of_nat (split_pt a)).
+Proof.
+  intros t [l items|l kids] Hk Hsz H1 H2; cbn [half1 half2 arity kids_ok kids_size_ok] in *;
+    set (sp := split_pt _) in *; unfold nn_zlen in H2.
+  - assert (Hne : items <> []) by (intros ->; simpl in H2; lia).
+    split; (split; [rewrite first_last_leaf; apply lo_hi_some|split; [exact I|split; [reflexivity|]]]).
+    + apply c18_firstn_ne; assumption.
+    + unfold nn_zlen. rewrite firstn_length. lia.
+    + apply c18_skipn_ne. lia.
+    + unfold nn_zlen. rewrite skipn_length. lia.
+  - assert (Hne : kids <> []) by (intros ->; simpl in H2; lia).
+    split.
+    + pose proof (c18_Forall_firstn _ sp _ Hk) as Hk1.
+      destruct (first_last_inner l (firstn sp kids) Hk1 (c18_firstn_ne sp kids H1 Hne)) as [E Hfne].
+      split; [rewrite E; apply lo_hi_some; exact Hfne|]. split; [exact Hk1|].
+      split; [apply c18_forallb_firstn; exact Hsz|]. unfold nn_zlen. rewrite firstn_length. lia.
+    + pose proof (c18_Forall_skipn _ sp _ Hk) as Hk2.
+      destruct (first_last_inner None (skipn sp kids) Hk2 (c18_skipn_ne sp kids ltac:(lia))) as [E Hfne].
+      split; [rewrite E; apply lo_hi_some; exact Hfne|]. split; [exact Hk2|].
+      split; [apply c18_forallb_skipn; exact Hsz|]. unfold nn_zlen. rewrite skipn_length. lia.
+Qed.
+
+Lemma size_ok_set_lim : forall t lim (n : node), size_ok Z t (nn_set_lim Z lim n) = size_ok Z t n.
+Proof. intros t lim [? ?|? ?]; reflexivity. Qed.
+Lemma sub_ok_set_first_last : forall n fl, nn_first_last Z n = Some fl -> kids_ok n -> sub_ok (nn_set_lim Z (Some fl) n).
+Proof. intros n fl H Hk. apply sub_ok_intro; [apply lc_set_first_last; exact H|apply kids_ok_set_lim; exact Hk]. Qed.
+
+Lemma split_ok : forall t, 3 <= t -> forall n fs, length fs = n -> forall (a : node) (s : zst) q A e B,
+  st_root Z s = plug a fs -> st_path Z s = zpath fs ++ q -> at_pos a q (st_item Z s) A e B ->
+  root_ok (plug a fs) -> fsize_ok t fs -> kids_size_ok t a = true -> arity a <= t + 1 ->
+  exists s', nn_split Z nn_zcmp t (length fs) s = Some s' /\ st_warn Z s' = st_warn Z s /\
+    root_ok (st_root Z s') /\ size_ok Z t (st_root Z s') = true /\
+    at_pos (st_root Z s') (st_path Z s') (st_item Z s') (zpre fs ++ A) e (B ++ zpost fs).
+Proof.
+  intros t Ht. induction n as [|n IH]; intros fs Hlen a s q A e B Hr Hp Hpos Hok Hfsz Hksz Har.
+  all: rewrite nn_split_eq.
+  all: pose proof (at_pos_item _ _ _ _ _ _ Hpos) as Hitem;
+       replace (st_item Z s <? 0) with false by (symmetry; apply Z.ltb_ge; lia).
+  all: assert (Hget : zget (st_root Z s) (firstn (length fs) (st_path Z s)) = Some a)
+         by (rewrite Hr, Hp, firstn_zpath, get_plug; reflexivity); rewrite Hget.
+  all: pose proof (at_pos_arity _ _ _ _ _ _ Hpos) as Har1; rewrite (split_needed_eq t a Har1).
+  all: destruct (t <? arity a) eqn:Et;
+    [apply Z.ltb_lt in Et|
+     apply Z.ltb_ge in Et; exists s; split; [reflexivity|]; split; [reflexivity|]; rewrite Hr; split; [exact Hok|];
+     split; [apply size_ok_plug; split; [rewrite size_ok_split, Hksz; replace (arity a <=? t) with true by (symmetry; apply Z.leb_le; lia); reflexivity|exact Hfsz]|];
+     rewrite Hp; apply at_pos_plug; exact Hpos].
+  all: destruct (split_pt_arith t a Ht (conj Et Har)) as (Hsp1 & Hsp2 & Hst1 & Hst2).
+  - (* the root: push down, then split the only kid *)
+    destruct fs; [|discriminate]. cbn [length plug zpath zpre zpost app] in *.
+    destruct Hok as [Hnolim Hka].
+    destruct (halves_ok t a Hka Hksz ltac:(lia) ltac:(lia)) as ((Hf1 & Hk1 & Hs1 & Ha1) & (Hf2 & Hk2 & Hs2 & Ha2)).
+    destruct (nn_first_last Z (half1 a)) as [fl1|] eqn:Efl1; [|congruence].
+    destruct (nn_first_last Z (half2 a)) as [fl2|] eqn:Efl2; [|congruence].
+    destruct (half_set_lim None a) as (Hh1 & Hh2 & Hhsp & Hhst & Hhl & Hhar).
+    set (a0 := nn_set_lim Z None a) in *.
+    set (s1 := NNSt Z (NInner None [a0]) (0 :: st_path Z s) (st_item Z s) (st_warn Z s)).
+    assert (Hp1 : st_path Z s1 = zpath [Fr None [] []] ++ q) by (cbn [st_path s1]; rewrite Hp; reflexivity).
+    destruct (split_body_zip t (Fr None [] []) [] a0 s1 q fl1 fl2) as (pl4 & fs4 & Hbody & Hsame & Hch).
+    + reflexivity.
+    + exact Hp1.
+    + rewrite Hh1, first_last_set_lim. exact Efl1.
+    + rewrite Hh2. exact Efl2.
+    + constructor; [split; constructor|constructor].
+    + rewrite Hh2. exact Hk2.
+    + intros H; congruence.
+    + cbn [chain_ok fr_lim]. split; [reflexivity|exact I].
+    + cbn [length] in Hbody. rewrite Hbody. eexists. split; [reflexivity|]. cbn [st_warn st_root st_path st_item fr_L fr_R].
+      destruct fs4 as [|? ?]; [|destruct Hsame as [Hs _]; discriminate].
+      cbn [fr_L fr_R] in Hch.
+      rewrite Hh1, Hh2 in *.
+      set (a1 := nn_set_lim Z (Some fl1) (nn_set_lim Z None (half1 a))) in *.
+      set (a2 := nn_set_lim Z (Some fl2) (half2 a)) in *.
+      assert (Hsa1 : sub_ok a1).
+      { apply sub_ok_set_first_last; [rewrite first_last_set_lim; exact Efl1|apply kids_ok_set_lim; exact Hk1]. }
+      assert (Hsa2 : sub_ok a2) by (apply sub_ok_set_first_last; assumption).
+      split; [reflexivity|]. split; [|split].
+      * apply plug_ok_iff; [discriminate|]. split; [exact Hsa1|]. split; [|exact Hch].
+        constructor; [split; [constructor|constructor; [exact Hsa2|constructor]]|constructor].
+      * apply size_ok_plug. split.
+        -- unfold a1. rewrite !size_ok_set_lim, size_ok_split, Hs1, Ha1.
+           replace (Z.of_nat (split_pt a) <=? t) with true by (symmetry; apply Z.leb_le; lia). reflexivity.
+        -- constructor; [|constructor]. unfold frame_size_ok. cbn [fr_L fr_R forallb].
+           split; [unfold nn_zlen; simpl; lia|]. split; [reflexivity|].
+           unfold a2. rewrite size_ok_set_lim, size_ok_split, Hs2, Ha2.
+           replace (arity a - Z.of_nat (split_pt a) <=? t) with true by (symmetry; apply Z.leb_le; lia). reflexivity.
+      * destruct (split_iter_pos a0 None [] [] [] q (st_item Z s) A e B (Some fl1) (Some fl2) pl4
+                    (at_pos_set_lim None a q _ A e B Hpos)) as (q4 & Hq4 & Hpos4).
+        -- rewrite Hhsp, Hhar. lia.
+        -- rewrite Hhl, Hhst, Hhsp. exact Hst1.
+        -- rewrite Hhl, Hhst, Hhsp. exact Hst2.
+        -- rewrite Hh1, Hh2 in Hpos4. fold a1 a2 in Hpos4. rewrite <- Hp1 in Hq4, Hpos4.
+           cbn [length zpath rzpath map rev app] in Hq4. cbn [st_item s1]. cbn [length] in Hpos4.
+           rewrite Hq4. eapply at_pos_eq; [exact Hpos4|reflexivity|reflexivity].
+  - (* a node below the root *)
+    destruct fs as [|[pl L R] fs']; [discriminate|]. injection Hlen as Hlen.
+    apply plug_ok_iff in Hok; [|discriminate]. destruct Hok as (Hsa & Hsibs & Hchain).
+    pose proof (sub_ok_kids _ Hsa) as Hka.
+    destruct (halves_ok t a Hka Hksz ltac:(lia) ltac:(lia)) as ((Hf1 & Hk1 & Hs1 & Ha1) & (Hf2 & Hk2 & Hs2 & Ha2)).
+    destruct (nn_first_last Z (half1 a)) as [fl1|] eqn:Efl1; [|congruence].
+    destruct (nn_first_last Z (half2 a)) as [fl2|] eqn:Efl2; [|congruence].
+    destruct (split_body_zip t (Fr pl L R) fs' a s q fl1 fl2 Hr Hp Efl1 Efl2 Hsibs Hk2
+                (fun _ => sub_ok_lim_some _ Hsa) Hchain) as (pl4 & fs4 & Hbody & Hsame & Hch).
+    cbn [length]. rewrite Hbody. cbn [fr_L fr_R] in *.
+    set (a1 := nn_set_lim Z (Some fl1) (half1 a)) in *.
+    set (a2 := nn_set_lim Z (Some fl2) (half2 a)) in *.
+    assert (Hsa1 : sub_ok a1) by (apply sub_ok_set_first_last; assumption).
+    assert (Hsa2 : sub_ok a2) by (apply sub_ok_set_first_last; assumption).
+    inversion Hsibs as [|? ? [HL HR] Hsibs']; subst. cbn [fr_L fr_R] in HL, HR.
+    inversion Hfsz as [|? ? (Hfr1 & Hfr2 & Hfr3) Hfsz']; subst. cbn [fr_L fr_R] in Hfr1, Hfr2, Hfr3.
+    destruct (split_iter_pos a pl L R fs' q (st_item Z s) A e B (Some fl1) (Some fl2) pl4 Hpos
+                ltac:(lia) Hst1 Hst2) as (q4 & Hq4 & Hpos4).
+    fold a1 a2 in Hpos4. rewrite <- Hp in Hq4, Hpos4.
+    set (path2 := fst (split_iter a (length fs') (st_path Z s) (st_item Z s))) in *.
+    set (item2 := snd (split_iter a (length fs') (st_path Z s) (st_item Z s))) in *.
+    cbv beta iota. cbn [st_path st_root st_warn st_item].
+    set (P4 := fill (Fr pl4 L (a2 :: R)) a1) in *.
+    assert (Hsibs4 : sibs_ok (Fr pl4 L (a2 :: R) :: fs4)).
+    { constructor; [split; [exact HL|constructor; assumption]|]. apply (sibs_ok_same fs'); assumption. }
+    assert (HflP : nn_first_last Z P4 <> None).
+    { apply first_last_fill_some; cbn [fr_L fr_R]; [apply sub_ok_lim_some; exact Hsa1|exact HL|constructor; assumption]. }
+    destruct (nn_first_last Z P4) as [flP|] eqn:EflP; [|congruence].
+    assert (Hlen4 : length fs4 = length fs') by (symmetry; apply same_sibs_length; exact Hsame).
+    assert (Hzp4 : zpath fs4 = zpath fs') by (symmetry; apply same_sibs_zpath; exact Hsame).
+    rewrite (reset_loop_noop (length fs') path2 (plug a1 (Fr pl4 L (a2 :: R) :: fs4)) P4 (st_warn Z s) flP).
+    2:{ rewrite Hq4, <- Hzp4, <- Hlen4, firstn_zpath. change (plug a1 (Fr pl4 L (a2 :: R) :: fs4)) with (plug P4 fs4). apply get_plug. }
+    2:{ exact EflP. }
+    2:{ destruct fs4 as [|fr5 fs4]; [left; rewrite <- Hlen4; reflexivity|right].
+        destruct Hch as [[Hl _] _]. fold P4 in Hl. rewrite Hl. exact EflP. }
+    assert (Hroot4 : root_ok (plug P4 fs4)).
+    { change (plug P4 fs4) with (plug a1 (Fr pl4 L (a2 :: R) :: fs4)). apply plug_ok_iff; [discriminate|].
+      split; [exact Hsa1|]. split; [exact Hsibs4|exact Hch]. }
+    assert (Hsz1 : size_ok Z t a1 = true).
+    { unfold a1. rewrite size_ok_set_lim, size_ok_split, Hs1, Ha1.
+      replace (Z.of_nat (split_pt a) <=? t) with true by (symmetry; apply Z.leb_le; lia). reflexivity. }
+    assert (Hsz2 : size_ok Z t a2 = true).
+    { unfold a2. rewrite size_ok_set_lim, size_ok_split, Hs2, Ha2.
+      replace (arity a - Z.of_nat (split_pt a) <=? t) with true by (symmetry; apply Z.leb_le; lia). reflexivity. }
+    destruct (IH fs4 ltac:(lia) P4
+                (NNSt Z (plug a1 (Fr pl4 L (a2 :: R) :: fs4)) path2 item2 (st_warn Z s)) q4
+                (flat_map zabs L ++ A) e (B ++ flat_map zabs R))
+      as (s' & Hsp & Hw & Hok' & Hsz' & Hpos').
+    + reflexivity.
+    + cbn [st_path]. rewrite Hq4, Hzp4. reflexivity.
+    + exact Hpos4.
+    + exact Hroot4.
+    + apply (fsize_ok_same t fs'); assumption.
+    + unfold P4, fill. cbn [kids_size_ok fr_L fr_R fr_lim]. rewrite forallb_app. cbn [forallb].
+      rewrite Hfr2, Hsz1, Hsz2, Hfr3. reflexivity.
+    + unfold P4, fill. cbn [arity fr_L fr_R fr_lim]. rewrite c18_zlen_app, !c18_zlen_cons. lia.
+    + rewrite Hlen4 in Hsp. exists s'. split; [exact Hsp|]. split; [exact Hw|]. split; [exact Hok'|]. split; [exact Hsz'|].
+      eapply at_pos_eq; [exact Hpos'| |].
+      * cbn [zpre fr_L]. rewrite (same_sibs_zpre _ _ Hsame), app_assoc. reflexivity.
+      * cbn [zpost fr_R]. rewrite (same_sibs_zpost _ _ Hsame), <- app_assoc. reflexivity.
+Qed.
